@@ -382,6 +382,7 @@ def evaluate(r, clauses=None):
     calls = r.calls
     last_op = -1
     prev_c1 = 0
+    cur_W_holder = [None]
     late_idx = getattr(r, 'late_chunks', None) or ()
     for call in calls:
         # apply buffer assignments made by ops before this call's op
@@ -419,6 +420,7 @@ def evaluate(r, clauses=None):
         if W == -1:
             W = call['inst_sws']
         kind, val = call['outcome']
+        prev_W, cur_W_holder[0] = cur_W_holder[0], (W or 0)
         res = model.call(plist, exact, W, chunks)
         ti = plist.index(TIMEOUT) if TIMEOUT in plist else -1
         ei = plist.index(EOF) if EOF in plist else -1
@@ -460,6 +462,9 @@ def evaluate(r, clauses=None):
             return out
         if is_to or is_eof:
             name = 'TIMEOUT' if is_to else 'EOF'
+            w.probe('outcome_%s_%s' % (name.lower(), 'listed' if kind == 'ret' else 'raised'))
+            if is_to and len(call['buffer']) < len(call['before']):
+                w.probe('timeout_left_trimmed_search_buffer')
             if res['kind'] == 'match' and res['j'] == 0:
                 if V('C04.pending_match_lost', '%s reported although pattern %d already occurs in the searchable pending text '
                      '(timeout %r)' % (name, res['index'], call['timeout']), call, model=_res_brief(res)):
@@ -587,6 +592,19 @@ def evaluate(r, clauses=None):
             if qs == s_win and j < idx:
                 if V('C02.tie', 'pattern %d also matches at %d and is listed before %d' % (j, qs, idx), call):
                     return out
+        # reach probes (how often the interesting situations were actually hit)
+        if chunks:
+            lastlen = len(chunks[-1])
+            if s_abs < len(E) - len(late_text) - lastlen < s_abs + len(after):
+                w.probe('match_straddles_read_boundary')
+        if len(after) == 0 and s_abs + len(buf) == len(E) and len(buf) == 0:
+            w.probe('zero_width_match_at_end')
+        if W:
+            w.probe('match_under_window')
+            if s_abs > 0 and off > 0:
+                w.probe('unsearched_text_returned_in_before')
+        if prev_W is not None and W != prev_W:
+            w.probe('window_changed_between_calls')
         # C03: naive model
         if res['kind'] != 'match':
             if V('C03.phantom', 'match reported but the naive search finds none', call):
